@@ -72,7 +72,7 @@ def tie(ctx, broken):
     ctx.coverage["poll_mesh_exponent_deltas"] = {str(k): v for k, v in sorted(hist.items())}
     # the decision logic regenerated from the source (gen/Src_loop.v): the GENERATED definitions on every recorded iteration of these runs
     L.tie_loop(ctx, broken, out, "c13")
-    R.apply_monitor(ctx, out, L.mon_loop)
+    L.apply_mon_loop(ctx, out, broken)
     # the mesh arithmetic regenerated from the source (gen/Src_grid.v) against the real code: components, real objects, these runs
     G.tie_grid(ctx, broken, traces=[tr for tr, _ in out])
 
@@ -93,4 +93,4 @@ def search(ctx, broken):
 def replay(ctx, rp):
     if str(rp.get("key", "")).startswith("grid:"):
         return G.replay_grid(ctx, rp)
-    return R.generic_replay(ctx, rp, [R.mon_c13, L.mon_loop])
+    return R.generic_replay(ctx, rp, [R.mon_c13, L.mon_loop_property("C13")])
